@@ -115,8 +115,35 @@ def r2_edit_prov(c, facts):
         c.bad(R, 'rename-dispatch', 'rename no longer dispatches to rename_variable / rename_qualifier')
 
 
+def r4_qualifier_local(c, facts):
+    R = c.rule('C18.R4', 'QUALIFIER-LOCAL: a qualifier is renamed only in the module that declares it')
+    fn = c.anchor(R, 'oal_client::lsp::handlers::rename_qualifier')
+    idx = MF.defs_index(fn)
+    if P.call_blocks(fn, 'ModuleSet::modules') or any(P.call_blocks(cl, 'ModuleSet::modules') for cl in facts.closures_of(fn)):
+        c.bad(R, 'qualifier-renamed-across-modules', 'rename_qualifier walks every module of the folder: a same-named qualifier of another module has its uses renamed but not its import, and that module no longer compiles')
+        return
+    mod = P.call_blocks(fn, 'Folder::module')
+    if not mod:
+        c.bad(R, 'qualifier-module-lookup-missing', 'rename_qualifier no longer looks up the module that contains the import')
+        return
+    sl = MF.slice_back(fn, mod[0][1]['args'][1]['l'], idx)
+    names = {P.strip(n).split('::')[-1] for n, _, _ in sl['calls']}
+    if {'locator', 'span'} <= names and ('identifier' in names or 4 in sl['args']):
+        c.ok(R, {'rename_qualifier': 'walks only folder.module(locator of the qualifier definition)'})
+    else:
+        c.bad(R, 'qualifier-module-not-from-definition', 'rename_qualifier walks a module that is not derived from the qualifier definition\'s own location')
+    desc = P.call_blocks(fn, 'NodeRef::descendants')
+    if desc:
+        ds = MF.slice_back(fn, desc[0][1]['args'][0]['l'], idx)
+        if any(P.strip(n).endswith('Folder::module') for n, _, _ in ds['calls']):
+            c.ok(R, {'rename_qualifier': 'the variables visited are the descendants of that module'})
+        else:
+            c.bad(R, 'qualifier-walk-not-that-module', 'the variables visited by rename_qualifier do not come from the module of the import')
+
+
 def run(c, facts):
     import c17
+    c.run(r4_qualifier_local, facts)
     c.run(lambda c: c08.r5_binder_kind(c, facts, rule='C18.R1', crates=('oal_client',)))
     c.run(r2_edit_prov, facts)
     R3 = c.rule('C18.R3', 'IDENT-LOC: reference edits replace exactly the unqualified identifier (shared with C17.R2)')
